@@ -4,6 +4,7 @@ package props
 import (
 	"fmt"
 	"math/rand"
+	"os"
 
 	"verif/harness/internal/rt"
 )
@@ -256,9 +257,24 @@ func Replay(prop, path string) int {
 	if prop == "C10" {
 		return rt.ReplayRefs(path)
 	}
-	if f, ok := families[prop]; ok {
-		return rt.ReplayFile(f, path)
+	if f, ok := families[prop]; ok && prop != "C12" && prop != "C16" && prop != "C19" {
+		if rt.IsUnitReplay(path) {
+			return rt.ReplayFile(f, path)
+		}
 	}
-	fmt.Printf("INCONCLUSIVE property=%s no check registered\n", prop)
-	return 2
+	// The remaining checks (CLI runs, layouts, equivalence classes, option pairs, call outcomes) judge a case in the
+	// context of its whole enumerated space (expected outcomes come from TLC runs over that space): the replay
+	// re-runs the check in the tier and with the seed the file was written under and reports whether the same case
+	// is reported again.
+	tier, seed := rt.ReplayTierSeed(path)
+	if seed != "" {
+		os.Setenv("VERIF_SEED", seed)
+	}
+	os.Setenv("VERIF_EVIDENCE_DIR", os.TempDir()) // a replay must not overwrite the evidence of the registered check
+	fmt.Printf("replaying %s by re-running the %s tier of %s (seed %s)\n", path, tier, prop, seed)
+	code := Run(prop, tier)
+	if code == 1 {
+		fmt.Printf("VIOLATION property=%s replay=%s\n", prop, path)
+	}
+	return code
 }
